@@ -53,6 +53,7 @@ type efParams struct {
 
 // efMsg is one Ethereum message.
 type efMsg struct {
+	From     string `json:"from"` // a1 | a2 | a3: the account that signs this message (default a1)
 	Type     string `json:"type"` // legacy | access | dynamic
 	Gas      string `json:"gas"`
 	GasPrice string `json:"gasPrice"` // legacy, access
@@ -173,6 +174,10 @@ func efProgCode(prog string, slots int) []byte {
 	return nil
 }
 
+// efSenders are the accounts that may sign messages; their balances are tracked in every scenario
+// (the Cosmos transaction is always sent by a1; the recipient of transfers is a4, "rcpt").
+var efSenders = map[string]bool{"a1": true, "a2": true, "a3": true}
+
 type efRun struct {
 	n      *Node
 	sender Key
@@ -213,11 +218,11 @@ func efAccessList(addrs, keys int) ethtypes.AccessList {
 // can be delivered (block 1 begun, programs installed) and builds the transaction bytes.
 func efPrepare(sc efScenario, par efParams) (*efRun, error) {
 	cfg := DefaultGenesisCfg(sc.Seed)
-	cfg.NAccts, cfg.NVals, cfg.Coinomics = 3, 1, false
+	cfg.NAccts, cfg.NVals, cfg.Coinomics = 4, 1, false
 	cfg.MaxGas = int64(efU64(par.MaxGas))
 	w := NewWorld(cfg)
 	n := efNewNode(w, par)
-	r := &efRun{n: n, sender: w.Acct("a1"), rcpt: w.Acct("a2")}
+	r := &efRun{n: n, sender: w.Acct("a1"), rcpt: w.Acct("a4")}
 	n.BeginBlock(BlockIn{DtMs: 5000, Proposer: 0})
 	ctx := n.Ctx()
 	ew := &EvmWorld{N: n, Roles: map[string]Key{}}
@@ -246,10 +251,16 @@ func efPrepare(sc efScenario, par efParams) (*efRun, error) {
 		return r, nil
 	}
 
-	nonce := n.App.EvmKeeper.GetNonce(ctx, ethAddr(r.sender))
+	// every message is signed by its own sender; nonces count per sender
+	sent := map[string]uint64{}
 	var msgs []*evmtypes.MsgEthereumTx
 	for i, m := range sc.Msgs {
-		o := EthTxOpts{Nonce: nonce + uint64(i), Value: mustBig(m.Value), Gas: efU64(m.Gas), ChainID: n.App.EvmKeeper.ChainID()}
+		if !efSenders[m.From] {
+			return nil, fmt.Errorf("unknown sender %q", m.From)
+		}
+		from := w.Acct(m.From)
+		o := EthTxOpts{Nonce: n.App.EvmKeeper.GetNonce(ctx, ethAddr(from)) + sent[m.From], Value: mustBig(m.Value), Gas: efU64(m.Gas), ChainID: n.App.EvmKeeper.ChainID()}
+		sent[m.From]++
 		switch m.Type {
 		case "legacy":
 			o.Type, o.GasPrice = 0, mustBig(m.GasPrice)
@@ -282,7 +293,7 @@ func efPrepare(sc efScenario, par efParams) (*efRun, error) {
 			return nil, fmt.Errorf("unknown program %q", m.Prog)
 		}
 		r.to = append(r.to, o.To)
-		msg, err := BuildEthMsg(r.sender, o)
+		msg, err := BuildEthMsg(from, o)
 		if err != nil {
 			return nil, err
 		}
@@ -301,7 +312,11 @@ func (r *efRun) balances() M {
 	bal := func(a sdk.AccAddress) string {
 		return bigStr(r.n.App.BankKeeper.GetBalance(ctx, a, utils.BaseDenom).Amount)
 	}
-	return M{"sender": bal(r.sender.Addr), "rcpt": bal(r.rcpt.Addr), "collector": bal(authtypes.NewModuleAddress(authtypes.FeeCollectorName))}
+	out := M{"rcpt": bal(r.rcpt.Addr), "collector": bal(authtypes.NewModuleAddress(authtypes.FeeCollectorName))}
+	for a := range efSenders {
+		out[a] = bal(r.n.W.Acct(a).Addr)
+	}
+	return out
 }
 
 type efResp struct {
@@ -367,6 +382,9 @@ func efNorm(sc efScenario) efScenario {
 	}
 	ms := make([]efMsg, len(sc.Msgs))
 	for i, m := range sc.Msgs {
+		if m.From == "" {
+			m.From = "a1"
+		}
 		if m.Type != "dynamic" {
 			m.Cap, m.Tip = m.GasPrice, m.GasPrice
 		} else {
@@ -446,7 +464,7 @@ func efOneScenario(tw *TraceWriter, scn int, src string, sc efScenario) {
 		if res.Code != 0 {
 			rp = efResp{}
 		}
-		msgs = append(msgs, M{"type": m.Type, "gas": m.Gas, "gasPrice": m.GasPrice, "cap": m.Cap, "tip": m.Tip, "value": m.Value,
+		msgs = append(msgs, M{"from": m.From, "type": m.Type, "gas": m.Gas, "gasPrice": m.GasPrice, "cap": m.Cap, "tip": m.Tip, "value": m.Value,
 			"prog": m.Prog, "nz": fmt.Sprint(m.Nz), "z": fmt.Sprint(m.Z), "alAddrs": fmt.Sprint(m.AlAddrs), "alKeys": fmt.Sprint(m.AlKeys),
 			"slots": fmt.Sprint(m.Slots), "twinGas": twin[i],
 			"resp": M{"present": rp.present, "gasUsed": fmt.Sprint(rp.gasUsed), "failed": rp.vmError != "", "vmError": rp.vmError, "outcome": efOutcome(rp)}})
@@ -553,12 +571,15 @@ func efRandomScenario(rnd *rand.Rand, seed int64) efScenario {
 	}
 	sc.Route = "eth"
 	nmsgs := 1
-	if rnd.Intn(5) == 0 {
-		nmsgs = 2
+	if rnd.Intn(4) == 0 {
+		nmsgs = 2 + rnd.Intn(2)
 	}
 	progs := []string{"transfer", "calldata", "stop", "revert", "invalid", "loop", "sstore", "create"}
 	for i := 0; i < nmsgs; i++ {
-		m := efMsg{Type: []string{"legacy", "access", "dynamic"}[rnd.Intn(3)], Prog: progs[rnd.Intn(len(progs))], Value: "0"}
+		m := efMsg{From: "a1", Type: []string{"legacy", "access", "dynamic"}[rnd.Intn(3)], Prog: progs[rnd.Intn(len(progs))], Value: "0"}
+		if nmsgs > 1 {
+			m.From = []string{"a1", "a2", "a3"}[rnd.Intn(3)]
+		}
 		if rnd.Intn(2) == 0 && m.Prog != "create" {
 			m.Value = efRandBig(rnd, 15).String()
 		}
